@@ -11,11 +11,12 @@
   Every equation is a linear form (lhs − rhs) in the unknowns (node voltages resp. mesh
   currents) with coefficients in the carrier `K`, i.e. the printed equation at a sample point.
 
-  The mesh generator keeps one switch `pe`: `pe = true` mirrors the repaired code (fix-C15-c: a component
-  is identified by the graph edge that holds it), `pe = false` the code before that fix (parallel
-  components identified by node pair), kept executable for the correspondence on a source tree without
-  the fix.  The other findings of this property (F13, C15-b, C15-d, C15-g, C15-h) are fixed in
-  /repo and the model mirrors the fixed code only.
+  The mesh generator keeps one switch `pe`: `pe = false` MIRRORS THE CODE AS IT IS IN /repo (finding C15-c, known:
+  parallel components are identified by their node pair) and is what the correspondence runs against;
+  `pe = true` is the code with the PROPOSED patch fix-C15-c (a component is identified by the graph edge that
+  holds it), not applied to /repo because it needs a correction of the unit test that pins the defect.
+  The other findings of this property (F13, C15-b, C15-d, C15-g, C15-h) are fixed in /repo and the model mirrors
+  the fixed code only; mutual couplings are ignored as the code ignores them (finding C15-k, known).
   No Mathlib import.
 -/
 import Lcapy.Spec.Laws
@@ -82,8 +83,9 @@ def indZ (kind : Kind) (s l : K) : K :=
     R, G, Y: v/Z;  C: (v − v0/s)/Z = sC·v − C·v0 (Laplace; `v0` only when given);
     L: (v + L·i0)/(sL);  I: isc whatever the voltage.  `none`: no such method / not affine
     (time-domain C and L give Derivative/Integral, V sources are never asked), dependent sources and two-ports
-    (the code raises), inductors with a mutual coupling (the code raises with fix-C15-k; before it, it printed the
-    relation of the uncoupled inductor, finding C15-k). -/
+    (the code raises).  An inductor with a mutual coupling gets the relation of the UNCOUPLED inductor: K lines have
+    no edge in the circuit graph and `L.current_equation` does not know them (finding C15-k, known: the theorems
+    require `coup = []`, the oracle covers the rest on the real code). -/
 def curEq (kind : Kind) (s : K) : Cpt K → Option (K × K)
   | .R _ _ r => some (1 / r, 0)
   | .Y _ _ y => some (y, 0)
@@ -93,13 +95,13 @@ def curEq (kind : Kind) (s : K) : Cpt K → Option (K × K)
       | .lap => some (s * c, 0)
       | .ivp => some (s * c, match v0 with | some v0 => -(c * v0) | none => 0)
       | .time => none
-  | .Ind _ _ _ l i0 [] =>
+  | .Ind _ _ _ l i0 _ =>               -- a mutual coupling is IGNORED, as the code does (finding C15-k, known)
       match kind with
       | .time => none
       | .ivp => some (1 / indZ kind s l, match i0 with | some i0 => (l * i0) / indZ kind s l | none => 0)
       | _ => some (1 / indZ kind s l, 0)
   | .I _ _ i => some (0, i)
-  | _ => none          -- also a coupled inductor: 'Mutual inductances not handled yet' (fix-C15-k)
+  | _ => none
 
 /-- contribution of component `c` to the KCL sum at node `k` (`k` is one of its nodes):
     `i = current_equation(V[k] − V[other])`; seen from the second node the constant part keeps the
@@ -207,14 +209,14 @@ def volEq (kind : Kind) (s : K) : Cpt K → Option (K × K)
       | .lap => some (1 / (s * c), 0)
       | .ivp => some (1 / (s * c), match v0 with | some v0 => v0 / s | none => 0)
       | _ => none
-  | .Ind _ _ _ l i0 [] =>
+  | .Ind _ _ _ l i0 _ =>               -- a mutual coupling is IGNORED, as the code does (finding C15-k, known)
       match kind with
       | .lap => some (s * l, 0)
       | .ivp => some (s * l, match i0 with | some i0 => -(l * i0) | none => 0)
       | .dc => some (0, 0)
       | .time => none
   | .V _ _ _ v => some (0, v)
-  | _ => none          -- also a coupled inductor (fix-C15-k)
+  | _ => none
 
 /-- a linear form in the mesh currents `I_0 … ` : coefficient list and constant -/
 structure MeshForm (K : Type) where
@@ -224,7 +226,7 @@ structure MeshForm (K : Type) where
 def MeshForm.eval (im : Nat → K) (f : MeshForm K) : K :=
   lsum (f.coeffs.map (fun p => p.2 * im p.1)) + f.const
 
-/-- `_add_mesh_currents` before fix-C15-c: scan each loop for the first consecutive pair that equals
+/-- `_add_mesh_currents`, the code as it is in /repo: scan each loop for the first consecutive pair that equals
     the component's node names (−I_n) or their reverse (+I_n); signed list of loop indices -/
 def accNames (loops : List (List GNode)) (n0 n1 : Nat) : List (Nat × Bool) :=
   (List.range loops.length).zip loops |>.filterMap (fun (n, loop) =>
@@ -233,7 +235,7 @@ def accNames (loops : List (List GNode)) (n0 n1 : Nat) : List (Nat × Bool) :=
     | some pq => some (n, pq.1 == .real n0 && pq.2 == .real n1)     -- true: forward, −I_n
     | none => none)
 
-/-- `_add_mesh_currents` (fix-C15-c): the loop passes through the component iff one of its
+/-- `_add_mesh_currents` with the PROPOSED patch fix-C15-c (not in /repo): the loop passes through the component iff one of its
     consecutive pairs is joined by THIS component's edge; forward iff the pair starts at the
     component's first node -/
 def accEdge (g : List (Edge K)) (loops : List (List GNode)) (idx n0 : Nat) : List (Nat × Bool) :=
@@ -251,7 +253,8 @@ def accCoeffs (acc : List (Nat × Bool)) : List (Nat × K) :=
 def scaleCoeffs (z : K) (l : List (Nat × K)) : List (Nat × K) := l.map (fun p => (p.1, z * p.2))
 
 /-- contribution of the pair (a, b) of loop number `m` to its KVL sum (`_process_loop` body).
-    `pe` -- components are identified by their graph edge (fix-C15-c), else by node names (before the fix).  The value is `voltage_equation(−current)`. -/
+    `pe = false` -- components are identified by node names (the code as it is in /repo); `pe = true` -- by their
+    graph edge (proposed patch fix-C15-c).  The value is `voltage_equation(−current)`. -/
 def meshTerm (pe : Bool) (kind : Kind) (s : K) (g : List (Edge K)) (loops : List (List GNode))
     (ab : GNode × GNode) : Option (MeshForm K) :=
   match component g ab.1 ab.2 with
